@@ -84,7 +84,7 @@ pub fn reader_frame(bt: &str) -> String {
                 Some(i) if sym.len() - i == 19 => &sym[..i],
                 _ => sym,
             };
-            return sym.chars().filter(|c| *c != '"' && *c != '\\').take(110).collect();
+            return sym.chars().filter(|c| *c != '"' && *c != '\\').take(200).collect();
         }
     }
     String::new()
